@@ -125,39 +125,19 @@ Proof. exact site_ok_sound. Qed.
 
 (* ====================== the code, as it is now ============================ *)
 
-(* The forwarding sites of the current tree that fail [site_ok], exactly.
-   Each is a genuine defect confirmed by execution (harness/calls_lib.py RECIPES):
-   - Gillespie_Arbitrary forwards **sim_kwargs whose default is None (TypeError),
-     and drops spont_kwargs / nbr_kwargs;
-   - SIR_individual_based_pure_IC passes 12 positionals to a callee whose 4th
-     parameter is `rho`: nodelist lands on rho, X0 on Y0, Y0 on X0, tmin on nodelist, ...;
-   - SIR_heterogeneous_meanfield_from_graph passes return_full_data=False;
-   - SIR_effective_degree_from_graph never passes initial_recovereds on;
-   - Attack_rate_discrete_from_graph passes the undefined name PhiS0. *)
-Theorem forwarding_bad_sites :
-  bad_sites sites =
-  [ "Gillespie_Arbitrary->Gillespie_simple_contagion@0";
-    "SIR_individual_based_pure_IC->SIR_individual_based@0";
-    "SIR_heterogeneous_meanfield_from_graph->SIR_heterogeneous_meanfield@1";
-    "SIR_effective_degree_from_graph->_initialize_node_status_@0";
-    "Attack_rate_discrete_from_graph->Attack_rate_discrete@2" ].
+(* The forwarding sites of the current tree that fail [site_ok], exactly: none.
+   History (calibration of the rule): on the tree before the fix: commits 311c285,
+   e718403, 6e8b3e6, 77c7252, c069c0a and the SIR_individual_based_pure_IC fix, this list
+   was basic_discrete_SIR, Gillespie_Arbitrary (star-star of None, dropped kwargs),
+   SIR_individual_based_pure_IC (12 shifted positionals),
+   SIR_heterogeneous_meanfield_from_graph (return_full_data=False),
+   SIR_effective_degree_from_graph (initial_recovereds dropped) and
+   Attack_rate_discrete_from_graph (undefined PhiS0); each was confirmed by execution
+   (harness/calls_lib.py RECIPES) before it was fixed in /repo. *)
+Theorem forwarding_ok_all : forallb site_ok sites = true.
 Proof. vm_compute. reflexivity. Qed.
 
-(* ... with the reasons *)
-Theorem forwarding_bad_sites_reasons :
-  bad_report sites =
-  [ ("Gillespie_Arbitrary->Gillespie_simple_contagion@0", [RBind StarArg]);
-    ("SIR_individual_based_pure_IC->SIR_individual_based@0",
-       [RName "nodelist" "rho"; RLocalName "X0" "Y0"; RLocalName "Y0" "X0";
-        RName "tmin" "nodelist"; RName "tmax" "tmin";
-        RName "tcount" "tmax"; RName "transmission_weight" "tcount";
-        RName "recovery_weight" "transmission_weight";
-        RName "return_full_data" "recovery_weight"; RDropped "return_full_data"]);
-    ("SIR_heterogeneous_meanfield_from_graph->SIR_heterogeneous_meanfield@1",
-       [RConstShadow "return_full_data" "False"]);
-    ("SIR_effective_degree_from_graph->_initialize_node_status_@0",
-       [RDropped "initial_recovereds"]);
-    ("Attack_rate_discrete_from_graph->Attack_rate_discrete@2", [RUndefined "PhiS0"]) ].
+Theorem forwarding_bad_sites : bad_sites sites = [].
 Proof. vm_compute. reflexivity. Qed.
 
 (* hence every other site forwards correctly; in particular the wrappers that the
@@ -183,10 +163,7 @@ Proof. vm_compute. reflexivity. Qed.
 (* public functions with a parameter that nothing in their body reads *)
 Theorem public_unread_parameters :
   unread_params =
-  [ ("discrete_SIR", ["progress"]);
-    ("Gillespie_Arbitrary", ["spont_kwargs"; "nbr_kwargs"]);
-    ("SIR_heterogeneous_meanfield_from_graph", ["return_full_data"]);
-    ("EBCM_pref_mix_discrete", ["tmin"]) ].
+  [ ("discrete_SIR", ["progress"]) ].
 Proof. vm_compute. reflexivity. Qed.
 
 (* ============================ non-vacuity ================================= *)
@@ -266,7 +243,7 @@ Print Assumptions bind_implements_the_rule.
 Print Assumptions bind_failure_is_TypeError.
 Print Assumptions site_ok_meaning.
 Print Assumptions forwarding_bad_sites.
-Print Assumptions forwarding_bad_sites_reasons.
+Print Assumptions forwarding_ok_all.
 Print Assumptions forwarding_ok_simulation_wrappers.
 Print Assumptions generated_signatures_wf.
 Print Assumptions public_unread_parameters.
